@@ -23,7 +23,14 @@
 (*   RaiseAt(s)   src / pre / mid / post raises while handling the next      *)
 (*                value, or the first cache cannot pickle it ("pkl"): the    *)
 (*                run is interrupted                                         *)
-(*   Stop(kind)   the consumer closes / abandons the generator: interrupted  *)
+(*   Stop(kind)   the consumer closes / abandons the generator: interrupted; *)
+(*                kind "keep": it just stops pulling and KEEPS the iterator: *)
+(*                the dumps of the run stay suspended (held) while later     *)
+(*                runs start.  RaiseAt(s, TRUE): the caller keeps the        *)
+(*                exception object - its traceback keeps every generator     *)
+(*                upstream of the raising element suspended the same way     *)
+(*   Release      the kept iterators / exceptions are dropped: the suspended *)
+(*                dumps are finalised now, between or after later runs       *)
 (*   BrokenRaise  `next` on a run fed by a cache left unusable: raises       *)
 (*                                                                         *)
 (* What the statement leaves open is nondeterministic (AfterInterrupt):     *)
@@ -34,6 +41,14 @@
 (* Design = "final_name" is the design of the pinned code (values written   *)
 (* to the final file name while yielding); TLC refutes NoTruncated for it.  *)
 (*                                                                         *)
+(* Flow values: the data of version v is a sequence of value codes          *)
+(* vk[v] - FRESH: a value of its own (100 * v + i), DUP: the same object as  *)
+(* the value before it, k >= 0: the special value number k, the same in      *)
+(* every version and at every position (None, an EOFError instance, b"", 0  *)
+(* ... things a loader could take for "no value" / "end of file").  A cache *)
+(* stores and replays them like any other value: nothing in the spec looks  *)
+(* at a value.                                                             *)
+(*                                                                         *)
 (* Declarative part: stored[c] (ghost) is the version of the last complete  *)
 (* first run through c since the last drop; a later run must yield          *)
 (* F(stored[L]) and touch nothing before L.                                 *)
@@ -41,14 +56,18 @@
 EXTENDS Integers, Sequences, FiniteSets, TLC, Json
 
 CONSTANTS MaxN,       \* flows of length 0..MaxN
-          LenProfiles,\* set of sequences: length of the upstream flow for data version 1, 2, ..
-                      \* (the number of versions is the length of the profile; a version of length
-                      \* 0 followed by a longer one makes loading an EMPTY stored flow observable)
+          DataProfiles,\* set of sequences: the value codes (FRESH, DUP, special value k >= 0) of the upstream
+                      \* flow for data version 1, 2, .. (the number of versions is the length of the profile;
+                      \* a version of length 0 followed by a longer one makes loading an EMPTY stored flow observable)
           Scenarios,  \* pipelines explored: set of <<number of caches, shape>>
           Forms,      \* how a run is started (labels for the harness, same meaning)
           Reruns,     \* subset of BOOLEAN: the values of rr explored.  rr = TRUE: the container object of a Start is
                       \* kept and can be run again (Restart); rr = FALSE: every run uses a new container
-          RerunScenarios, RerunLens, RerunForms,   \* the pipelines / length profiles / forms explored with rr = TRUE
+          RerunScenarios, RerunData, RerunForms,   \* the pipelines / data profiles / forms explored with rr = TRUE
+          Holds,      \* subset of BOOLEAN: the values of hd explored.  hd = TRUE: the consumer may keep the iterator of a
+                      \* stopped run / the exception of a failed run (Stop("keep"), RaiseAt(s, TRUE), Release)
+          HoldScenarios, HoldData, HoldForms,      \* the pipelines / data profiles / forms explored with hd = TRUE
+          HoldRc,                                  \* ... and the values of recompute of (all) their caches
           StopKinds,  \* "close", "abandon"
           KeepHistory,\* TRUE: record the commands in h (export); FALSE: h stays empty
           Design      \* "allowed" (what the statement permits) | "rename" (one conforming design:
@@ -56,8 +75,14 @@ CONSTANTS MaxN,       \* flows of length 0..MaxN
                       \* histories of the export) | "final_name" (pinned code)
 
 VARIABLES rr,                     \* scenario: containers are kept (see Reruns)
-          lens, nc, shape,        \* scenario: flow length per data version, number of caches, which of
-                                  \* pre/mid/post exist
+          hd,                     \* scenario: stopped runs may be kept suspended (see Holds)
+          lens, vk, nc, shape,    \* scenario: flow length and value codes per data version, number of caches,
+                                  \* which of pre/mid/post exist
+          held,                   \* the caches with a suspended dump: a run through them was stopped and its
+                                  \* iterator (or the exception that ended it) is still kept by the caller
+          hg,                     \* ghost: <<version of the flow, number of values written>> of the run suspended
+                                  \* last (keeps the states apart in which the suspended run saw other data than
+                                  \* the later runs, so that the exported histories change the data in between)
           ver,                    \* current version of the upstream data
           file,                   \* per cache: [k |-> "A" absent | "F" loadable | "B" refused, c |-> content]
           stored,                 \* ghost: version completely stored in cache c, 0 = none
@@ -79,8 +104,8 @@ VARIABLES rr,                     \* scenario: containers are kept (see Reruns)
           pos, out,               \* values delivered in this run
           pulled, wpre, wmid,     \* pulls from src, values handled by pre, by mid in this run
           h                       \* ghost: commands so far (hidden by VIEW; exported)
-vars == <<rr, lens, nc, shape, ver, file, stored, intr, ph, rc, L, eager, cont, pos, out, pulled, wpre, wmid, h>>
-view == <<rr, lens, nc, shape, ver, file, stored, intr, ph, rc, L, eager, cont, pos, out, pulled, wpre, wmid>>
+vars == <<rr, hd, lens, vk, nc, shape, held, hg, ver, file, stored, intr, ph, rc, L, eager, cont, pos, out, pulled, wpre, wmid, h>>
+view == <<rr, hd, lens, vk, nc, shape, held, hg, ver, file, stored, intr, ph, rc, L, eager, cont, pos, out, pulled, wpre, wmid>>
 \* forms of starting a run in which the pipeline is a branch of Split([...]) (core/split.py: the branches go
 \* through meta.alter_sequence when the Split is built)
 EagerForms == {"split"}
@@ -98,9 +123,19 @@ FormsAll == {"seq", "source", "seq_calter", "source_calter", "seq_malter", "sour
 FormsThorough == {"seq", "source", "seq_calter", "source_malter", "el_calter", "el_malter", "split", "seq_nested_calter"}
 
 MaxVer == Len(lens)
-F(v) == [i \in 1..lens[v] |-> 100 * v + i]
-LensQuick == {<<0, 2>>, <<1, 1>>, <<2, 2>>}
-LensThorough == {<<0, 2, 1>>, <<1, 0, 2>>, <<3, 3, 3>>}
+FRESH == -1
+DUP == -2
+\* the value at position i of data version v: a special value is the same wherever it occurs; a DUP is the value
+\* before it (at position 1: a value of its own)
+Val(v, i) == LET j == CHOOSE j \in 1..i : (j = 1 \/ vk[v][j] # DUP) /\ \A m \in (j + 1)..i : vk[v][m] = DUP
+             IN  IF vk[v][j] >= 0 THEN vk[v][j] ELSE 100 * v + j
+F(v) == [i \in 1..lens[v] |-> Val(v, i)]
+Plain(n) == [i \in 1..n |-> FRESH]
+\* quick: an empty flow / a flow that IS one special value / a special value first (the rest of the stored flow comes
+\* after it) and a repeated object; thorough: special values at every position, several of them, repeated ones
+DataQuick == {<<Plain(0), Plain(2)>>, <<<<0>>, Plain(1)>>, <<<<0, FRESH>>, <<FRESH, DUP>>>>}
+DataThorough == {<<Plain(0), <<FRESH, 0>>, <<1>>>>, <<Plain(1), Plain(0), <<0, DUP>>>>,
+                 <<Plain(3), <<FRESH, DUP, 0>>, <<2, 0, FRESH>>>>}
 Absent == [k |-> "A", c |-> <<>>]
 Refused == [k |-> "B", c |-> <<>>]
 Full(s) == [k |-> "F", c |-> s]
@@ -110,28 +145,37 @@ ShapesFor(m) == {Shape(a, b, c) : a \in BOOLEAN, b \in (IF m = 1 THEN {FALSE} EL
 Cmd(name, a, r, c) == [cmd |-> name, a |-> a, rc |-> r, c |-> c]
 Log(hh, c) == IF KeepHistory THEN Append(hh, c) ELSE hh
 
-InitWith(rr0, lens0, nc0, shape0) ==
-  /\ rr = rr0 /\ lens = lens0 /\ nc = nc0 /\ shape = shape0 /\ ver = 1
+InitWith(rr0, hd0, data0, nc0, shape0) ==
+  /\ rr = rr0 /\ hd = hd0 /\ vk = data0 /\ lens = [v \in 1..Len(data0) |-> Len(data0[v])]
+  /\ nc = nc0 /\ shape = shape0 /\ ver = 1 /\ held = {} /\ hg = <<0, 0>>
   /\ file = [c \in 1..nc0 |-> Absent] /\ stored = [c \in 1..nc0 |-> 0]
   /\ intr = [c \in 1..nc0 |-> FALSE]
   /\ ph = "noobj" /\ rc = [c \in 1..nc0 |-> FALSE]
   /\ L = 0 /\ eager = FALSE /\ cont = NoCont /\ pos = 0 /\ out = <<>> /\ pulled = 0 /\ wpre = 0 /\ wmid = 0 /\ h = <<>>
-Init == \/ FALSE \in Reruns /\ \E l0 \in LenProfiles, sc \in Scenarios : InitWith(FALSE, l0, sc[1], sc[2])
-        \/ TRUE \in Reruns /\ \E l0 \in RerunLens, sc \in RerunScenarios : InitWith(TRUE, l0, sc[1], sc[2])
+Init == \/ FALSE \in Reruns /\ \E d0 \in DataProfiles, sc \in Scenarios : InitWith(FALSE, FALSE, d0, sc[1], sc[2])
+        \/ TRUE \in Reruns /\ \E d0 \in RerunData, sc \in RerunScenarios : InitWith(TRUE, FALSE, d0, sc[1], sc[2])
+        \/ TRUE \in Holds /\ \E d0 \in HoldData, sc \in HoldScenarios : InitWith(FALSE, TRUE, d0, sc[1], sc[2])
 ScenAll == {<<m, s>> : m \in {1, 2}, s \in ShapesFor(2)} \ {<<1, s>> : s \in {t \in ShapesFor(2) : t.mid}}
 \* rr = TRUE, thorough
-LensRerunThorough == {<<2, 1>>, <<0, 2>>}
+DataRerunThorough == {<<Plain(2), Plain(1)>>, <<Plain(0), Plain(2)>>}
 ScenRerunThorough == {<<1, Shape(FALSE, FALSE, FALSE)>>, <<1, Shape(TRUE, FALSE, TRUE)>>, <<1, Shape(TRUE, FALSE, FALSE)>>,
                       <<2, Shape(FALSE, FALSE, FALSE)>>, <<2, Shape(FALSE, TRUE, FALSE)>>, <<2, Shape(TRUE, TRUE, TRUE)>>}
 \* rr = TRUE, quick
 ScenRerunQuick == {<<1, Shape(FALSE, FALSE, FALSE)>>, <<1, Shape(TRUE, FALSE, TRUE)>>, <<2, Shape(FALSE, FALSE, FALSE)>>}
-LensRerunQuick == {<<1, 2>>}
+DataRerunQuick == {<<Plain(1), Plain(2)>>}
+\* hd = TRUE: a tap after the cache(s) (the exception of `post` / `mid` can be kept), the data change while a run is held
+ScenHoldQuick == {<<1, Shape(FALSE, FALSE, TRUE)>>, <<2, Shape(FALSE, TRUE, FALSE)>>}
+DataHoldQuick == {<<Plain(1), Plain(2)>>}
+FormsHoldQuick == {"seq", "source_calter"}
+ScenHoldThorough == {<<1, Shape(TRUE, FALSE, TRUE)>>, <<2, Shape(FALSE, TRUE, FALSE)>>}
+DataHoldThorough == {<<Plain(2), Plain(1)>>}
+FormsHoldThorough == {"seq", "source_calter", "split"}
 FormsRerunQuick == {"seq", "source_calter", "el_malter", "split"}
 \* quick: a cache first, last and next to the other one (no taps); every tap present
 ScenQuick == {<<1, Shape(FALSE, FALSE, FALSE)>>, <<1, Shape(TRUE, FALSE, TRUE)>>,
               <<2, Shape(FALSE, FALSE, FALSE)>>, <<2, Shape(TRUE, TRUE, TRUE)>>}
 
-Scenario == UNCHANGED <<rr, lens, nc, shape>>
+Scenario == UNCHANGED <<rr, hd, lens, vk, nc, shape>>
 RunVars == <<L, eager, pos, out, pulled, wpre, wmid>>
 
 (***************************************************************************)
@@ -139,14 +183,14 @@ RunVars == <<L, eager, pos, out, pulled, wpre, wmid>>
 (***************************************************************************)
 New(r) == /\ ph \in {"noobj", "idle"} /\ ph' = "idle" /\ rc' = r /\ cont' = NoCont
           /\ h' = Log(h, Cmd("new", "", r, 0))
-          /\ Scenario /\ UNCHANGED <<ver, file, stored, intr>> /\ UNCHANGED RunVars
+          /\ Scenario /\ UNCHANGED <<ver, file, stored, intr, held, hg>> /\ UNCHANGED RunVars
 Drop(c) == /\ ph = "idle" /\ file' = [file EXCEPT ![c] = Absent] /\ stored' = [stored EXCEPT ![c] = 0]
            /\ intr' = [intr EXCEPT ![c] = FALSE]
            /\ h' = Log(h, Cmd("drop", "", rc, c))
-           /\ Scenario /\ UNCHANGED <<ver, ph, rc, cont>> /\ UNCHANGED RunVars
+           /\ Scenario /\ UNCHANGED <<ver, ph, rc, cont, held, hg>> /\ UNCHANGED RunVars
 ChangeData == /\ ph = "idle" /\ ver < MaxVer /\ ver' = ver + 1
               /\ h' = Log(h, Cmd("data", "", rc, 0))
-              /\ Scenario /\ UNCHANGED <<file, stored, intr, ph, rc, cont>> /\ UNCHANGED RunVars
+              /\ Scenario /\ UNCHANGED <<file, stored, intr, ph, rc, cont, held, hg>> /\ UNCHANGED RunVars
 
 (***************************************************************************)
 (* A run.                                                                  *)
@@ -162,7 +206,7 @@ Start(form) == /\ ph = "idle" /\ ph' = "run" /\ L' = LastLoadable /\ eager' = (f
                         ELSE cont' = NoCont
                /\ pos' = 0 /\ out' = <<>> /\ pulled' = 0 /\ wpre' = 0 /\ wmid' = 0
                /\ h' = Log(h, Cmd("start", form, rc, 0))
-               /\ Scenario /\ UNCHANGED <<ver, file, stored, intr, rc>>
+               /\ Scenario /\ UNCHANGED <<ver, file, stored, intr, rc, held, hg>>
 \* the SAME container object is run again.  Every Cache.run in it decides anew; a Source hoisted at cache hl when the
 \* container was built is fed by that cache whatever has happened to it since (unless a later cache can be loaded)
 Restart == /\ ph = "idle" /\ cont.k /\ ph' = "run"
@@ -170,7 +214,7 @@ Restart == /\ ph = "idle" /\ cont.k /\ ph' = "run"
            /\ pos' = 0 /\ out' = <<>> /\ pulled' = 0 /\ wpre' = 0 /\ wmid' = 0
            /\ h' = Log(h, Cmd("restart", "", rc, 0))
            /\ ContEnd("new")     \* (the ghost only tells idle states apart)
-           /\ Scenario /\ UNCHANGED <<ver, file, stored, intr, rc>>
+           /\ Scenario /\ UNCHANGED <<ver, file, stored, intr, rc, held, hg>>
 
 Cur == IF L = 0 THEN F(ver) ELSE file[L].c     \* the flow that feeds this run
 CurVer == IF L = 0 THEN ver ELSE stored[L]
@@ -190,14 +234,14 @@ Deliver == /\ ph = "run" /\ ~Broken /\ pos < Len(Cur)
            /\ wpre' = wpre + (IF L = 0 /\ shape.pre THEN 1 ELSE 0)
            /\ wmid' = wmid + (IF L <= 1 /\ shape.mid THEN 1 ELSE 0)
            /\ h' = Log(h, Cmd("next", "", rc, 0))
-           /\ Scenario /\ UNCHANGED <<ver, file, stored, intr, ph, rc, L, eager, cont>>
+           /\ Scenario /\ UNCHANGED <<ver, file, stored, intr, ph, rc, L, eager, cont, held, hg>>
 
 Exhaust == /\ ph = "run" /\ ~Broken /\ pos = Len(Cur)
            /\ file' = [c \in 1..nc |-> IF Dumping(c) THEN Full(Cur) ELSE file[c]]
            /\ stored' = [c \in 1..nc |-> IF Dumping(c) THEN CurVer ELSE stored[c]]
            /\ intr' = [c \in 1..nc |-> IF Dumping(c) THEN FALSE ELSE intr[c]]
            /\ h' = Log(h, Cmd("next", "", rc, 0))
-           /\ EndRun /\ Scenario /\ UNCHANGED <<ver, rc>> /\ ContEnd("full")
+           /\ EndRun /\ Scenario /\ UNCHANGED <<ver, rc, held, hg>> /\ ContEnd("full")
 
 \* what an interrupted dump may leave at the final file name
 AfterInterrupt(c) ==
@@ -213,26 +257,51 @@ Interrupt ==
 
 \* (an element raises while it handles the next value of the feeding flow; inside a Split the source is read,
 \* and may raise, before anything is delivered - whatever the flow that feeds the run)
-RaiseAt(site) == /\ ph = "run" /\ Active(site)
+\* keep: the caller keeps the exception object.  Its traceback refers to the frame of the raising element, and that
+\* frame to the generator it was reading from: every dumping cache UPSTREAM of the raising element stays suspended
+\* (the exception never passed through it); the caches downstream of it have seen the exception and are finished
+UpstreamOf(c, site) == site = "post" \/ (site = "mid" /\ c = 1)
+RaiseAt(site, keep) ==
+                 /\ ph = "run" /\ Active(site) /\ (keep => hd)
                  /\ ((~Broken /\ pos < Len(Cur)) \/ (eager /\ site = "src" /\ lens[ver] > 0))
-                 /\ Interrupt /\ h' = Log(h, Cmd("raise", site, rc, 0))
+                 /\ Interrupt /\ h' = Log(h, Cmd("raise", site, rc, IF keep THEN 1 ELSE 0))
+                 /\ held' = IF keep THEN held \cup {c \in 1..nc : Dumping(c) /\ UpstreamOf(c, site)} ELSE held
+                 /\ hg' = IF held' # held THEN <<CurVer, pos + 1>> ELSE hg
                  /\ EndRun /\ Scenario /\ UNCHANGED <<ver, rc>> /\ ContEnd("intr")
+\* kind "keep": the consumer stops pulling and keeps the iterator - every dump of the run stays suspended
 Stop(kind) == /\ ph = "run" /\ Interrupt /\ h' = Log(h, Cmd("stop", kind, rc, 0))
+              /\ (kind = "keep" => hd)
+              /\ held' = IF kind = "keep" THEN held \cup {c \in 1..nc : Dumping(c)} ELSE held
+              /\ hg' = IF held' # held THEN <<CurVer, pos>> ELSE hg
               /\ EndRun /\ Scenario /\ UNCHANGED <<ver, rc>> /\ ContEnd("intr")
 BrokenRaise == /\ ph = "run" /\ Broken /\ Interrupt /\ h' = Log(h, Cmd("next", "", rc, 0))
-               /\ EndRun /\ Scenario /\ UNCHANGED <<ver, rc>> /\ ContEnd("intr")
+               /\ EndRun /\ Scenario /\ UNCHANGED <<ver, rc, held, hg>> /\ ContEnd("intr")
+\* The kept iterators / exceptions are dropped (all of them): the suspended dumps are closed now - possibly after
+\* later runs have used, filled or dropped the same caches.  A release may leave a cache as it is, remove it or
+\* leave something a later run refuses; it never makes anything loadable that was not there before
+\* (no prefix, and no mixture of the suspended run's values with what a later complete run stored).
+AfterRelease(c) == IF Design = "allowed" THEN {file[c], Absent, Refused} ELSE {file[c]}
+Release == /\ ph = "idle" /\ held # {}
+           /\ file' \in {f \in [1..nc -> {Absent, Refused} \cup {file[c] : c \in 1..nc}] :
+                           \A c \in 1..nc : IF c \in held THEN f[c] \in AfterRelease(c) ELSE f[c] = file[c]}
+           /\ stored' = [c \in 1..nc |-> IF file'[c] = file[c] THEN stored[c] ELSE 0]
+           /\ held' = {} /\ hg' = <<0, 0>>
+           /\ h' = Log(h, Cmd("release", "", rc, 0))
+           /\ Scenario /\ UNCHANGED <<ver, intr, ph, rc, cont>> /\ UNCHANGED RunVars
 
 Sites == {"src", "pre", "mid", "post", "pkl"}
-StartAny == \E f \in (IF rr THEN RerunForms ELSE Forms) : Start(f)
-NewAny == \E r \in [1..nc -> BOOLEAN] : New(r)
+StartAny == \E f \in (IF hd THEN HoldForms ELSE IF rr THEN RerunForms ELSE Forms) : Start(f)
+\* (hd = TRUE: all caches of the pipeline with the same recompute)
+NewAny == \E r \in (IF hd THEN {[c \in 1..nc |-> b] : b \in HoldRc} ELSE [1..nc -> BOOLEAN]) : New(r)
 DropAny == \E c \in 1..nc : Drop(c)
 Next == \/ NewAny \/ DropAny
         \/ ChangeData
         \/ StartAny
         \/ Restart
         \/ Deliver \/ Exhaust \/ BrokenRaise
-        \/ \E s \in Sites : RaiseAt(s)
+        \/ \E s \in Sites, keep \in BOOLEAN : RaiseAt(s, keep)
         \/ \E k \in StopKinds : Stop(k)
+        \/ Release
 Spec == Init /\ [][Next]_vars
 
 (***************************************************************************)
@@ -243,6 +312,7 @@ TypeOK == /\ (\A v \in 1..MaxVer : lens[v] \in 0..MaxN) /\ nc \in {1, 2} /\ ver 
           /\ ph \in {"noobj", "idle", "run"}
           /\ L \in 0..nc /\ pos \in 0..MaxN /\ Len(out) = pos /\ cont.hl \in 0..nc /\ (cont.hl > 0 => cont.k /\ ~rc[cont.hl])
           /\ \A c \in 1..nc : file[c].k \in {"A", "F", "B"} /\ stored[c] \in 0..MaxVer
+          /\ held \subseteq 1..nc /\ (held # {} => hd) /\ \A v \in 1..MaxVer : Len(vk[v]) = lens[v]
 \* a loadable cache always holds a complete flow (never a proper prefix)
 NoTruncated == \A c \in 1..nc : file[c].k = "F" => \E v \in 1..ver : file[c].c = F(v)
 \* ... namely the one of the last complete first run through it
@@ -267,6 +337,12 @@ CompleteIsComplete == [][Exhaust => /\ \E v \in 1..ver : out = F(v)
 DropRestores == [][\A c \in 1..nc : Drop(c) => ~Loadable(c)']_vars
 \* an interrupted run never changes a cache it only loaded from or never reached
 InterruptKeepsLoaded == [][(ph = "run" /\ ph' = "idle") => \A c \in 1..nc : c <= L => file'[c] = file[c]]_vars
+\* dropping a kept iterator / exception never makes anything loadable (what a later complete run stored in the
+\* meantime is replayed as it is, or not at all) and touches no cache whose dump was not suspended
+ReleaseNeverFills == [][Release => \A c \in 1..nc : /\ (file'[c].k = "F" => file'[c] = file[c])
+                                                     /\ (c \notin held => file'[c] = file[c])]_vars
+\* while a stopped run is kept suspended no cache holds a proper prefix either (NoTruncated is a state invariant:
+\* it holds in the states with held # {} as in all others)
 
 (***************************************************************************)
 (* Export: every transition of the state graph with a shortest command     *)
@@ -274,6 +350,8 @@ InterruptKeepsLoaded == [][(ph = "run" /\ ph' = "idle") => \A c \in 1..nc : c <=
 (* history that reached it first; h is hidden by VIEW).                     *)
 (***************************************************************************)
 \* (with rr = TRUE only the histories with a Restart: the others are those of rr = FALSE)
-EmitEdge == IF ~rr \/ \E i \in 1..Len(h') : h'[i].cmd = "restart"
-            THEN PrintT(ToJson([lens |-> lens, nc |-> nc, shape |-> shape, h |-> h'])) ELSE TRUE
+\* (with hd = TRUE only the histories in which something is kept)
+Keeps(c) == (c.cmd = "stop" /\ c.a = "keep") \/ (c.cmd = "raise" /\ c.c = 1)
+EmitEdge == IF (~rr /\ ~hd) \/ (rr /\ \E i \in 1..Len(h') : h'[i].cmd = "restart") \/ (hd /\ \E i \in 1..Len(h') : Keeps(h'[i]))
+            THEN PrintT(ToJson([lens |-> lens, vk |-> vk, nc |-> nc, shape |-> shape, h |-> h'])) ELSE TRUE
 =============================================================================
